@@ -38,8 +38,19 @@ RULE = ("A: category lists of 0..3 distinct types from 8 x word lengths "
         "at least one category / sync manager / mapped entry; distinct = "
         "distinct (shape, choices)")
 
-TYPES = [10, 30, 40, 41, 50, 51, 60, 0x7FFF]
+# category types: 0 is the NOP category of the SII (legal anywhere in the
+# list, with or without contents); only 0xffff ends the list
+TYPES = [0, 10, 30, 41, 50, 51, 60, 0x7FFF]
 WORDS = [0, 1, 2, 3, 4, 5, 9]
+# images read FIRST by a Terminal object that then reads the image under
+# test: (category list, garbage instead of 0xff behind the end marker).  The
+# byte offset behind the end marker's header (4 + sum(4 + 2 * words)) takes
+# every residue modulo 8, so a reader fetching 8 bytes at a time is left with
+# 0, 2, 4 and 6 bytes it fetched but did not need.
+FIRSTS = [((), False), (((60, 1),), True), (((41, 2),), False),
+          (((51, 3),), True), (((10, 0),), True),
+          (((30, 5), (50, 4)), False), (((0, 0), (0x7FFF, 1)), True),
+          ((), True)]
 K = 2
 KF_UNASSIGNED = "C17-pdo-unassigned-counted"
 FMT = {8: "B", 16: "H", 32: "I", 64: "Q"}
@@ -72,7 +83,18 @@ def frame_budget(image):
     return 16 * (2 + (len(image) - 0x80 + 7) // 8 + 4)
 
 
-def execute_read(ch, shape, n, eight, seed):
+def first_image(first, n, seed):
+    shape, garbage = first
+    ident, cats, image = read_image(shape, n + 1, seed)
+    if garbage:
+        # what follows the end marker means nothing
+        image += bytes((0x41 + 3 * j) & 0xff for j in range(16))
+    return ident, cats, image
+
+
+def execute_read(ch, shape, n, eight, seed, first=None):
+    """first = an entry of FIRSTS: the same Terminal object has read that
+    image (no busy polls) before it reads the image under test"""
     ident, cats, image = read_image(shape, n, seed)
     loop = vloop.VLoop()
     with loop:
@@ -85,13 +107,31 @@ def execute_read(ch, shape, n, eight, seed):
                 early.append((ctl, addr))
             orig(ctl, addr)
         t._sii_command = command
+        m = bussim.Master(bussim.Bus([t]), lambda: EtherCat("sim"), loop)
+        term = Terminal(m.ec)
+        term.position = 5
+        before = None
+        if first is not None:
+            fident, fcats, fimage = first_image(first, n, seed)
+            t.sii = bytearray(fimage)
+            fut = asyncio.ensure_future(term.read_eeprom())
+            done = m.run(fut, max_frames=frame_budget(fimage))
+            ok = done and fut.exception() is None
+            before = dict(
+                ok=ok,
+                ident=[getattr(term, a, None) for a in
+                       ("vendorId", "productCode", "revisionNo", "serialNo")],
+                eeprom=sorted((k, bytes(v).hex()) for k, v in
+                              getattr(term, "eeprom", {}).items()))
+            if not done:
+                fut.cancel()
+            t.sii = bytearray(image)
+            del t.sii_log[:]
+            m.frames = 0
         t.sii_busy_polls = lambda term, phase: ch.choose(
             K + 1, "busy", list(range(K + 1)))
         # the interface may still be busy (e.g. loading) when we start
         t._sii_busy = ch.choose(K + 1, "busy-at-start", list(range(K + 1)))
-        m = bussim.Master(bussim.Bus([t]), lambda: EtherCat("sim"), loop)
-        term = Terminal(m.ec)
-        term.position = 5
         fut = asyncio.ensure_future(term.read_eeprom())
         done = m.run(fut, max_frames=frame_budget(image))
         if not done:
@@ -108,12 +148,20 @@ def execute_read(ch, shape, n, eight, seed):
                    eeprom=sorted((k, bytes(v).hex()) for k, v in
                                  getattr(term, "eeprom", {}).items()),
                    early=early, reads=len(t.sii_log), frames=m.frames)
+        if before is not None:
+            obs["before"] = before
         loop.shutdown()
     return obs
 
 
-def judge_read(shape, n, seed, obs):
+def judge_read(shape, n, seed, obs, first=None):
     ident, cats, image = read_image(shape, n, seed)
+    if first is not None:
+        fident, fcats, fimage = first_image(first, n, seed)
+        want = dict(ok=True, ident=list(fident),
+                    eeprom=sorted((t, d.hex()) for t, d in fcats))
+        if obs["before"] != want:
+            return ("first read of the object", want, obs["before"])
     if obs["outcome"] != ("return",):
         return ("read_eeprom returns", ("return",), obs["outcome"])
     if obs["early"]:
@@ -128,33 +176,49 @@ def judge_read(shape, n, seed, obs):
 
 
 def work_read(item, res):
-    _, shape, n, eight, bound, seed = item
+    """A: a fresh Terminal object reads the image; A2: a Terminal object
+    that has read another image before (FIRSTS[fi]) reads it - the result
+    has to be what a fresh object gets, i.e. the image"""
+    first = None
+    if item[0] == "A2":
+        _, shape, n, eight, bound, seed, fi = item
+        first = FIRSTS[fi]
+        part = "A2"
+    else:
+        _, shape, n, eight, bound, seed = item
+        fi = None
+        part = "A"
 
     def on_exec(ch, obs):
         res.count("evaluations")
         res.count("transitions", obs["frames"])
         if shape:
-            res.nontrivial.add(core.digest(["A", shape, eight, ch.choices]))
-        res.outcomes.add(("A", obs["outcome"][0], len(obs["eeprom"]),
+            res.nontrivial.add(core.digest([part, shape, eight, fi,
+                                            ch.choices]))
+        res.outcomes.add((part, obs["outcome"][0], len(obs["eeprom"]),
                           min(obs["reads"], 12)))
-        v = judge_read(shape, n, seed, obs)
+        v = judge_read(shape, n, seed, obs, first)
         if v:
-            res.violation(dict(part="A", shape=shape, n=n, eight=eight,
-                               seed=seed, choices=list(ch.choices)),
-                          v[1], v[2], sig=core.digest(["A", v[0], eight]),
-                          note=v[0])
+            note = v[0]
+            if first is not None and v[0] != "first read of the object":
+                note += " (second read_eeprom of the same Terminal object)"
+            res.violation(dict(part=part, shape=shape, n=n, eight=eight,
+                               seed=seed, first=fi,
+                               choices=list(ch.choices)),
+                          v[1], v[2], sig=core.digest([part, v[0], eight]),
+                          note=note)
             bad.append(1)
             if len(bad) >= 3:
                 raise Enough()
     bad = []
     try:
         cnt, capped = explore.dfs(
-            lambda ch: execute_read(ch, shape, n, eight, seed), bound,
+            lambda ch: execute_read(ch, shape, n, eight, seed, first), bound,
             on_exec, max_execs=4000)
     except Enough:
         return      # three counterexamples for this shape are plenty
     if capped:
-        res.caps_hit.append(f"A {shape} eight={eight}: {cnt} executions")
+        res.caps_hit.append(f"{part} {shape} eight={eight}: {cnt} executions")
 
 
 # ------------------------------------------------------------------ part B
@@ -407,19 +471,22 @@ def chain_image(conf, seed):
         mailbox=(0x1000, 32, 0x1080, 24) if mailbox else None)
 
 
-def execute_chain(ch, conf, eight, seed):
+def execute_chain(ch, conf, eight, seed, first=None):
+    """first = another configuration: the same Terminal object went through
+    apply_eeprom + parse_pdos on that image before (fixed timing), then the
+    terminal's EEPROM and objects are exchanged (a terminal re-initialised
+    after its EEPROM was rewritten, a terminal swapped for another one)"""
     ident, sms, rx, tx, cats, image = chain_image(conf, seed)
     mailbox = conf[0]
     loop = vloop.VLoop()
     with loop:
         t = bussim.Terminal("t", station=9, sii=image, sii_eight=eight)
+        live = [first is None]
         t.sii_busy_polls = lambda term, phase: ch.choose(
-            K + 1, "busy", list(range(K + 1)))
+            K + 1, "busy", list(range(K + 1))) if live[0] else 0
         coe.esc_mailbox_rules(t)
-        server = coe.SdoServer(coe.pdo_objects(rx, tx))
-        t.mbx_handler = server
-        t.mbx_latency = lambda term: ch.choose(K + 1, "latency",
-                                               list(range(K + 1)))
+        t.mbx_latency = lambda term: ch.choose(
+            K + 1, "latency", list(range(K + 1))) if live[0] else 0
         m = bussim.Master(bussim.Bus([t]), lambda: EtherCat("sim"), loop)
         term = Terminal(m.ec)
         term.position = 9
@@ -428,6 +495,22 @@ def execute_chain(ch, conf, eight, seed):
         async def chain():
             await term.apply_eeprom()
             return await term.parse_pdos()
+        before = None
+        if first is not None:
+            fident, fsms, frx, ftx, fcats, fimage = chain_image(first,
+                                                                seed + 1)
+            t.sii = bytearray(fimage)
+            t.mbx_handler = coe.SdoServer(coe.pdo_objects(frx, ftx))
+            fut = asyncio.ensure_future(chain())
+            done = m.run(fut, max_frames=frame_budget(fimage) + 2000)
+            before = bool(done)
+            if not done:
+                fut.cancel()
+            t.sii = bytearray(image)
+            m.frames = 0
+            live[0] = True
+        server = coe.SdoServer(coe.pdo_objects(rx, tx))
+        t.mbx_handler = server
         fut = asyncio.ensure_future(chain())
         done = m.run(fut, max_frames=frame_budget(image) + 2000)
         raised = ret = None
@@ -451,6 +534,8 @@ def execute_chain(ch, conf, eight, seed):
                    errors=[list(e) for e in server.protocol_errors],
                    aborts=[list(a) for a in server.aborts],
                    requests=server.requests, frames=m.frames)
+        if before is not None:
+            obs["before"] = before
         term_pdos = dict(getattr(term, "pdos", {}))
         loop.shutdown()
     return obs, term_pdos, term
@@ -487,7 +572,15 @@ def judge_chain(conf, seed, obs, term_pdos, term):
 
 
 def work_chain(item, res):
-    _, conf, eight, bound, seed = item
+    """C: fresh Terminal object; C2: the object has been through the chain
+    on another image (`first`) before - judged against the image under test
+    exactly as a fresh object would be"""
+    first = None
+    part = item[0]
+    if part == "C2":
+        _, conf, eight, bound, seed, first = item
+    else:
+        _, conf, eight, bound, seed = item
 
     def on_exec(ch, out):
         obs, term_pdos, term = out
@@ -496,28 +589,33 @@ def work_chain(item, res):
         v = judge_chain(conf, seed, obs, term_pdos, term)
         if v == "rejected":
             res.count("outside_precondition")
-            res.outcomes.add(("C", "rejected"))
+            res.outcomes.add((part, "rejected"))
             return
-        res.nontrivial.add(core.digest(["C", conf, eight, ch.choices]))
-        res.outcomes.add(("C", conf[0], "ok" if v is None else "bad",
+        res.nontrivial.add(core.digest([part, conf, eight, first,
+                                        ch.choices]))
+        res.outcomes.add((part, conf[0], "ok" if v is None else "bad",
                           min(obs["requests"], 9)))
         if v:
-            res.violation(dict(part="C", conf=conf, eight=eight, seed=seed,
-                               choices=list(ch.choices)), v[1], v[2],
-                          kf=v[3], sig=core.digest(["C", v[0], v[3]]),
-                          note=v[0])
+            note = v[0]
+            if first is not None:
+                note += " (second apply_eeprom + parse_pdos of the same " \
+                    "Terminal object)"
+            res.violation(dict(part=part, conf=conf, eight=eight, seed=seed,
+                               first=first, choices=list(ch.choices)),
+                          v[1], v[2], kf=v[3],
+                          sig=core.digest([part, v[0], v[3]]), note=note)
             bad.append(1)
             if len(bad) >= 3:
                 raise Enough()
     bad = []
     try:
         cnt, capped = explore.dfs(
-            lambda ch: execute_chain(ch, conf, eight, seed), bound, on_exec,
-            max_execs=4000)
+            lambda ch: execute_chain(ch, conf, eight, seed, first), bound,
+            on_exec, max_execs=4000)
     except Enough:
         return
     if capped:
-        res.caps_hit.append(f"C {conf}: {cnt} executions")
+        res.caps_hit.append(f"{part} {conf}: {cnt} executions")
 
 
 # ------------------------------------------------------------------ driving
@@ -548,8 +646,8 @@ def pdo_shapes(max_entries, max_pdos, kinds=KINDS):
 
 
 def work(item, res):
-    {"A": work_read, "sm": work_sm, "sm2": work_sm2, "pdo": work_pdo,
-     "C": work_chain}[item[0]](item, res)
+    {"A": work_read, "A2": work_read, "sm": work_sm, "sm2": work_sm2,
+     "pdo": work_pdo, "C": work_chain, "C2": work_chain}[item[0]](item, res)
 
 
 def items(ctx):
@@ -570,6 +668,17 @@ def items(ctx):
             else:
                 bound = 1 if (n + seed) % 97 == 0 else 0
             out.append(("A", shape, n, eight, bound, seed))
+            # the same walk as the second read of a Terminal object: after
+            # every first image for <= 1 category, after one of them (in
+            # turn) for the longer lists
+            if len(shape) <= 1:
+                firsts = range(len(FIRSTS))
+            elif len(shape) == 2 or (n + seed) % 2 == 0:
+                firsts = [(n + seed + eight) % len(FIRSTS)]
+            else:
+                firsts = []
+            for fi in firsts:
+                out.append(("A2", shape, n, eight, min(bound, 1), seed, fi))
     # ---- B
     for k in range(5):
         for seq in itertools.product(MODES, repeat=k):
@@ -614,6 +723,15 @@ def items(ctx):
                 bound = 1 if (m + seed) % (11 if ctx.quick else 3) == 0 \
                     else 0
                 out.append(("C", conf, eight, bound, seed))
+    # the chain as the second one of a Terminal object: after the chain on
+    # the configuration 1 / 7 / 31 places earlier (other shape, other
+    # source, other category list)
+    confs = [it for it in out if it[0] == "C"]
+    for i, it in enumerate(confs):
+        step = (1, 7, 31)[(i + seed) % 3]
+        first = confs[(i - step) % len(confs)][1]
+        if first != it[1] and (not ctx.quick or (i + seed) % 2 == 0):
+            out.append(("C2", it[1], it[2], 0, seed, first))
     return out
 
 
@@ -635,7 +753,7 @@ def run(ctx):
     res.cov["states"] = len(res.nontrivial)
     res.cov["traces_validated_against_impl"] = res.cov.get("evaluations", 0)
     res.cov["items"] = {k: sum(1 for i in its if i[0] == k)
-                        for k in ("A", "sm", "pdo", "C")}
+                        for k in ("A", "A2", "sm", "sm2", "pdo", "C", "C2")}
     res.cov["model_selftest"] = stats
     res.cov["bound_completed"] = 2 if ctx.quick else 3
     res.sample(dict(part="A", shape=[[41, 3], [10, 9]], eight=False,
@@ -666,12 +784,13 @@ def replay(ctx, rep):
     res = core.Result()
     c = rep["case"]
     part = c["part"]
-    if part == "A":
+    if part in ("A", "A2"):
         shape = tuple(tuple(x) for x in c["shape"])
+        first = None if c.get("first") is None else FIRSTS[c["first"]]
         obs = execute_read(explore.Chooser(tuple(c["choices"])), shape,
-                           c["n"], c["eight"], c["seed"])
+                           c["n"], c["eight"], c["seed"], first)
         print(obs)
-        v = judge_read(shape, c["n"], c["seed"], obs)
+        v = judge_read(shape, c["n"], c["seed"], obs, first)
         if v:
             res.violation(c, v[1], v[2], note=v[0])
     elif part == "B-sm":
@@ -682,10 +801,13 @@ def replay(ctx, rep):
         work_pdo(("pdo", tuple(tuple(s) for s in c["shape"]),
                   c["unassigned"], c["seed"]), res)
     else:
-        conf = c["conf"]
-        conf = (conf[0], tuple(tuple(s) for s in conf[1]), conf[2], conf[3])
+        def conf_of(conf):
+            return (conf[0], tuple(tuple(s) for s in conf[1]), conf[2],
+                    conf[3])
+        conf = conf_of(c["conf"])
+        first = conf_of(c["first"]) if c.get("first") else None
         out = execute_chain(explore.Chooser(tuple(c["choices"])), conf,
-                            c["eight"], c["seed"])
+                            c["eight"], c["seed"], first)
         print(out[0])
         v = judge_chain(conf, c["seed"], *out)
         if v and v != "rejected":
